@@ -152,6 +152,9 @@ func kill(p process, name string, deadline time.Time) error {
 	// which means the process is terminated
 	case <-p.termination:
 		log.Debugf("Process %s already terminated.", name)
+		// the leader is gone, the members of its group (started with Setpgid, so the group
+		// is addressed by the leader's pid) may not be: kill takes the whole group with it
+		syscall.Kill(-p.pid, syscall.SIGKILL)
 		return nil
 	default:
 		log.Infof("Sending SIGKILL to %s(%d).", name, p.pid)
